@@ -209,3 +209,31 @@ Example C12_example_brackets :
      IoNetRead [10;3;13]; IoSinkWrite [10;3]; IoNotify 3; IoPoll true; IoSinkWrite [13]; IoSinkFlush; IoEnd; IoPoll true]
   /\ Brackets_Global.chk Brackets_Global.Before (Bytes_Global.ios tr) = Some Brackets_Global.After.
 Proof. exact Brackets_Global.brackets_example. Qed.
+
+(* ---- cancellation stops the transfer: every call, every state, either type, every server (Cancel_Global.v) ---- *)
+From LibFtp Require Cancel_Global.
+
+(* the io events of a call are accepted by the automaton Out -begin-> Run -poll answers cancelled-> Canc -end-> Out in which
+   reads from / writes to the data connection and notifications are refused in Canc *)
+Theorem C12_cancellation_stops_the_transfer : forall a w, Cancel_Global.sink_ok a ->
+  exists tr st', w_trace (snd (step w a)) = w_trace w ++ tr /\
+    Cancel_Global.chk Cancel_Global.Out (Bytes_Global.ios tr) = Some st'.
+Proof. exact Cancel_Global.step_cancellation_stops_the_transfer. Qed.
+Print Assumptions C12_cancellation_stops_the_transfer.
+
+(* read back: after a poll that answered 'cancelled' inside a transfer nothing is read from or written to the data connection
+   and no block is notified, as long as the transfer has not ended *)
+Theorem C12_nothing_moves_after_cancelled : forall a w tr pre mid post, Cancel_Global.sink_ok a ->
+  w_trace (snd (step w a)) = w_trace w ++ tr -> Bytes_Global.ios tr = pre ++ IoPoll true :: mid ++ post ->
+  Cancel_Global.chk Cancel_Global.Out pre = Some Cancel_Global.Run ->
+  count_ev is_end mid = O -> count_ev is_begin mid = O -> count_ev Cancel_Global.moves mid = O.
+Proof. exact Cancel_Global.nothing_moves_after_cancelled. Qed.
+Print Assumptions C12_nothing_moves_after_cancelled.
+
+Example C12_example_cancel_stops :
+  let w0 := init_world (mkConfig Passive true TBinary false false) Cancel_Global.cancel_script in
+  let w1 := snd (steps w0 [AConnect [104] 21 None]) in
+  let tr := skipn (length (w_trace w1)) (w_trace (snd (step w1 (ADownload [102] (Some [false; false; true; true]) None)))) in
+  net_in_bytes (Bytes_Global.ios tr) = [1;2;3] /\
+  Cancel_Global.chk Cancel_Global.Out (Bytes_Global.ios tr) = Some Cancel_Global.Out.
+Proof. exact Cancel_Global.cancel_example. Qed.
